@@ -135,6 +135,11 @@ def num_sqrt(a):
            z3.If(re(a) < 0, NaN, Fin(rsqrt(re(a)))))))
 
 
+def num_hypot(a, b):
+    '''C99 / numpy hypot: +inf if either argument is infinite (even when the other one is nan), else nan if either is nan, else sqrt(a^2 + b^2).'''
+    return z3.If(z3.Or(is_inf(a), is_inf(b)), PInf, z3.If(z3.Or(is_nan(a), is_nan(b)), NaN, Fin(rsqrt(re(a) * re(a) + re(b) * re(b)))))
+
+
 def num_lt(a, b):
     return z3.And(z3.Not(is_nan(a)), z3.Not(is_nan(b)),
                   z3.Or(z3.And(is_fin(a), is_fin(b), re(a) < re(b)),
